@@ -33,19 +33,19 @@ var trustedBase = []string{
 }
 
 type mutantSpec struct {
-	Name    string   `json:"name"`
-	Prop    string   `json:"property"`
-	File    string   `json:"file"`
-	Find    string   `json:"find"`
-	Replace string   `json:"replace"`
+	Name    string `json:"name"`
+	Prop    string `json:"property"`
+	File    string `json:"file"`
+	Find    string `json:"find"`
+	Replace string `json:"replace"`
 	// More holds further (find, replace) pairs in the same file, applied after the first
 	// (each anchor must occur exactly once): refactorings that touch two places.
 	More []struct {
 		Find    string `json:"find"`
 		Replace string `json:"replace"`
 	} `json:"more,omitempty"`
-	Expect  []string `json:"expect"`
-	Note    string   `json:"note,omitempty"`
+	Expect []string `json:"expect"`
+	Note   string   `json:"note,omitempty"`
 	// Equivalent marks a behaviour-preserving refactoring: the rules must stay silent.
 	Equivalent bool `json:"equivalent,omitempty"`
 }
